@@ -81,7 +81,12 @@ def main():
     knx = knx16_check(c, exe)
     tot['evaluations'] = tot.get('evaluations', 0) + knx
     tot['nontrivial'] = tot.get('nontrivial', 0) + knx
+    import neighbour
+    nb = neighbour.run_neighbours(c, exe, False)
+    tot['evaluations'] = tot.get('evaluations', 0) + nb.get('evaluations', 0)
     c.coverage.update({
+        'two_field_sets': {'set_decodes_compared_with_the_fields_alone': int(nb.get('set_decodes', 0)), 'set_texts_encoded_back': int(nb.get('set_encodes', 0)),
+                           'second_field_x_predecessor_pairs': int(nb.get('neighbour_pairs', 0))},
         'evaluations': int(tot.get('evaluations', 0)),
         'distinct_nontrivial': int(tot.get('nontrivial', 0)),
         'rule': 'every numeric/BCD/HCD/bit/time type of 1 or 2 bytes: all 256/65536 raw patterns per (type, divisor, format); '
